@@ -176,7 +176,9 @@ fn one_run(report: &mut Report, seed: u64, rid: u64, dir: &str, steps: usize) ->
     let fail = |run: &Run, sig: String, msg: String| Some((sig, msg, { let mut r = replay.clone(); r["last_calls"] = json!(run.log.iter().rev().take(20).rev().collect::<Vec<_>>()); r }));
     let result = (|| -> Option<(String, String, serde_json::Value)> {
         // --- fill program on the fresh device
-        let target_fill = rng.range(60, 92);
+        // half of the runs on the largest device keep room for a scripted long-extent sequence
+        let long_script = data_blocks == 256 && rid % 2 == 0;
+        let target_fill = if long_script { rng.range(25, 38) } else { rng.range(60, 92) };
         let mut fill: Vec<(Vec<u8>, usize)> = Vec::new();
         let mut i = 0;
         loop {
@@ -209,8 +211,41 @@ fn one_run(report: &mut Report, seed: u64, rid: u64, dir: &str, steps: usize) ->
             Ok(false) => return fail(&run, "space:fresh-device-out-of-space".into(), format!("a fresh device with {} data blocks refused {} blocks of records", data_blocks, run.live_blocks())),
             Err((s, m)) => return fail(&run, s, m),
         }
+        // --- scripted long-extent sequence: a key of n blocks, a small record right behind it, then the key rewritten
+        // with n-2 blocks (lands elsewhere; the n-block hole opens between occupied neighbours) and with n-1 blocks
+        // (best fit: that hole, one block to spare) - a quiescent-point check after each step, twice over
+        if long_script {
+            for cycle in 0..2u32 {
+                let n = 34 + rng.usize_below(14);
+                let bk = format!("long-{cycle}").into_bytes();
+                let bhl = indep::header_len(cfg.version, bk.len());
+                for (step, nb) in [n, n - 2, n - 1].into_iter().enumerate() {
+                    if let Err(e) = run.put(&bk, nb * 4096 - bhl - rng.range(0, 60) as usize) {
+                        return fail(&run, "space:insert".into(), e);
+                    }
+                    match run.flush_and_check("long-extent script") {
+                        Ok(true) => {}
+                        Ok(false) => break,
+                        Err((s, m)) => return fail(&run, s, m),
+                    }
+                    if step == 0 {
+                        let sk = format!("pin-{cycle}").into_bytes();
+                        if let Err(e) = run.put(&sk, 100) {
+                            return fail(&run, "space:insert".into(), e);
+                        }
+                        match run.flush_and_check("long-extent script") {
+                            Ok(_) => {}
+                            Err((s, m)) => return fail(&run, s, m),
+                        }
+                    }
+                    run.report.count("long_extent_script_steps", 1);
+                }
+            }
+        }
         // --- churn
         let nkeys = i.max(4);
+        let big_base = 36 + rng.usize_below(12);
+        let mut big_seq = 0usize;
         for step in 0..steps {
             let k = format!("sp-{:03}", rng.usize_below(nkeys + 4)).into_bytes();
             let hl = indep::header_len(cfg.version, k.len());
@@ -232,6 +267,33 @@ fn one_run(report: &mut Report, seed: u64, rid: u64, dir: &str, steps: usize) ->
                 5..=7 => {
                     if run.model.contains_key(&k) {
                         if let Err(e) = run.del(&k) {
+                            return fail(&run, "space:delete".into(), e);
+                        }
+                    }
+                }
+                8 if data_blocks >= 160 && rng.chance(1, 2) => {
+                    // long extents whose size changes by a block or two between generations: a 33-48-block request
+                    // is served from the hole its slightly larger or smaller predecessor left (requests of 32 blocks
+                    // and more, remainders of one or two blocks)
+                    // one key walks through n, n-2, n-1, ... blocks: the third generation fits the hole the first one
+                    // left with exactly one block to spare
+                    let bk = b"big-0".to_vec();
+                    let bhl = indep::header_len(cfg.version, bk.len());
+                    let nb = big_base + [0usize, 0, 1][big_seq % 3] - [0usize, 2, 2][big_seq % 3];
+                    big_seq += 1;
+                    let len = nb * 4096 - bhl - rng.range(0, 100) as usize;
+                    let old = run.model.get(&bk).map(|v| run.blocks_of(&bk, v.len())).unwrap_or(0);
+                    if (run.live_blocks() - old + nb as u64) * 100 <= data_blocks * 80 {
+                        if let Err(e) = run.put(&bk, len) {
+                            return fail(&run, "space:insert".into(), e);
+                        }
+                        run.report.count("long_extent_rewrites", 1);
+                        match run.flush_and_check("long extent") {
+                            Ok(_) => {}
+                            Err((s, m)) => return fail(&run, s, m),
+                        }
+                    } else if run.model.contains_key(&bk) {
+                        if let Err(e) = run.del(&bk) {
                             return fail(&run, "space:delete".into(), e);
                         }
                     }
